@@ -24,6 +24,8 @@ pub enum Op {
     Provide { user: u8, k: u16 },
     Withdraw { user: u8, k: u16 },
     SetFees { fees: [Uint128; 3] },
+    /// re-point the configured fee collector: 0 the original collector contract, 1 / 2 two plain accounts
+    SetCollector { which: u8 },
 }
 
 fn op(n_assets: u8) -> BoxedStrategy<Op> {
@@ -39,6 +41,7 @@ fn op(n_assets: u8) -> BoxedStrategy<Op> {
         1 => (0u8..4, 1u16..20000).prop_map(|(user, k)| Op::Provide { user, k }),
         1 => (0u8..4, gen::share_sel()).prop_map(|(user, k)| Op::Withdraw { user, k }),
         1 => gen::small_fee_triple().prop_map(|f| Op::SetFees { fees: [Uint128::new(f[0]), Uint128::new(f[1]), Uint128::new(f[2])] }),
+        1 => (0u8..3).prop_map(|which| Op::SetCollector { which }),
     ]
     .boxed()
 }
@@ -144,6 +147,7 @@ impl Check for PairFeeLedger {
     }
     fn test(&self, c: &PairCase, rec: &Rec) -> TResult {
         let mut pw = PairWorld::build(&c.cfg).map_err(|e| Fail::new(format!("world build failed: {e}")))?;
+        let original_collector = pw.collector.clone();
         let u0 = pw.user(0);
         if pw.provide(&u0, [c.init.0.u128(), c.init.1.u128()], None, None).is_err() {
             rec.class("init_rejected");
@@ -301,6 +305,16 @@ impl Check for PairFeeLedger {
                         fees = fees_u(f);
                     }
                 }
+                Op::SetCollector { which } => {
+                    let to = match *which % 3 {
+                        0 => original_collector.clone(),
+                        1 => cosmwasm_std::Addr::unchecked("collector-two"),
+                        _ => cosmwasm_std::Addr::unchecked("collector-three"),
+                    };
+                    if pw.set_collector(&to).is_ok() {
+                        rec.class("collector_repointed");
+                    }
+                }
             }
             let at = pw.all_time(false).map_err(|e| Fail::new(e))?;
             let bu = pw.all_time(true).map_err(|e| Fail::new(e))?;
@@ -370,6 +384,7 @@ impl Check for TrioFeeLedger {
     }
     fn test(&self, c: &TrioCase, rec: &Rec) -> TResult {
         let mut tw = TrioWorld::build(&c.cfg).map_err(|e| Fail::new(format!("world build failed: {e}")))?;
+        let original_collector = tw.collector.clone();
         let u0 = tw.user(0);
         if tw
             .provide(&u0, [c.init[0].u128(), c.init[1].u128(), c.init[2].u128()], None, None)
@@ -531,6 +546,16 @@ impl Check for TrioFeeLedger {
                 Op::SetFees { fees: f } => {
                     if tw.update(Some(fees_u(f)), None, None).is_ok() {
                         fees = fees_u(f);
+                    }
+                }
+                Op::SetCollector { which } => {
+                    let to = match *which % 3 {
+                        0 => original_collector.clone(),
+                        1 => cosmwasm_std::Addr::unchecked("collector-two"),
+                        _ => cosmwasm_std::Addr::unchecked("collector-three"),
+                    };
+                    if tw.set_collector(&to).is_ok() {
+                        rec.class("collector_repointed");
                     }
                 }
             }
